@@ -101,6 +101,24 @@ CLAIMED = {
         note='recompute iterates a Python set: order is arbitrary, compared as a multiset per operation',
         technique='Coq proof (reachability closure, fold over forced objects) + differential histories via vm_compute',
         ref='DESIGN.md section 5, C07'),
+    'C05': dict(
+        category='proof',
+        text='Proof over the publication protocol of every data class (files: write aside, one rename; directories: fill a '
+             'work directory, rename an existing result aside, rename the work directory in, delete the aside copy; '
+             'ContinuesData keeps an earlier work directory): at every prefix of the operation sequence - a crash or a '
+             'fault inside save - and whatever earlier attempts left under the work/aside names, the final name holds '
+             'nothing, the complete new result or the complete previous one; an uninterrupted save publishes the new '
+             'result; a later chain that sees nothing recomputes and publishes. The operation sequences are compared with '
+             'the file-system events the code issues for 8 data classes x first/forced x leftovers; in addition a snapshot '
+             'of the data directory before every file-system event, and torn prefixes of every file being written, are '
+             'each opened by a fresh process: has_data implies no recomputation, the value is one a complete run produced, '
+             'a second request agrees; run raising / returning a mistyped value / an unserializable value leave nothing visible.',
+        note='partial: atomicity of rename and the partial state of an open file are the model of the operating system '
+             '(Crash.apply), not verified; power-loss durability (fsync) is outside the model; H5Data is covered through '
+             'ContinuesData, FigureData through the file discipline only. Found and repaired F6 (results written in place).',
+        technique='Coq proof (case analysis over every prefix of every trace, all leftover states) + trace correspondence via '
+                  'vm_compute + fault/crash-point enumeration on the implementation',
+        ref='DESIGN.md section 5, C05'),
     'C06': dict(
         category='other',
         text='Proof of the logic taskchain itself adds around the third-party serializers - json-lines framing reads every '
